@@ -281,6 +281,8 @@ type FnExec struct {
 	EntryArgs  []Value
 	EntryState *State
 	InitMode   bool
+	PinLen     map[string]uint64
+	Tag        string
 	Trusted    map[string]bool
 	Inlined    map[string]bool
 	Applied    map[string]bool
@@ -403,10 +405,18 @@ func (fx *FnExec) ObligeAux(st *State, name, kind string, goal *Term, pos, info 
 	}
 }
 
+func (fx *FnExec) tagSuffix() string {
+	if fx.Tag == "" {
+		return ""
+	}
+	return "{" + fx.Tag + "}"
+}
+
 func (fx *FnExec) Oblige(st *State, name, kind string, goal *Term, pos, info string) {
 	if fx.discoverLoop != nil || fx.mute {
 		return
 	}
+	name += fx.tagSuffix()
 	if goal.IsTrue() || st.Dead {
 		// still record as trivially discharged for counting
 		fx.Obls = append(fx.Obls, &Oblig{Name: name, Kind: kind, Fn: FuncName(fx.Fn), Assumes: nil, Goal: True, Pos: pos, Info: info, Entry: fx.Entry})
